@@ -168,6 +168,21 @@ def work_padding(chunk):
     return res
 
 
+def work_partial(chunk):
+    """DES replies whose ciphertext is not a whole number of blocks: the octets that belong to no block were never
+    written into the private buffer; nothing built from them may reach the caller."""
+    res = common.Result()
+    for case in chunk:
+        probs, r = histories.run_history(case["cfgs"], case["history"], ("reply",))
+        res.count("requests", r.datagrams)
+        res.count("partial_block_histories")
+        res.distinct()
+        res.outcome("partial-block")
+        for c, t, _ in probs:
+            res.violation("never-written-bytes-delivered/%s" % Cfg.from_desc(case["cfgs"][0]).name, t, case)
+    return res
+
+
 def work(chunk):
     res = common.Result()
     res["sweeps"] = []
@@ -207,6 +222,12 @@ def replay(case):
     if case.get("engine") == "rsx":
         return rsx.replay(case)
     common.prepare_stage()
+    if "history" in case:
+        probs, r = histories.run_history(case["cfgs"], case["history"], ("reply",))
+        return {"problems": [(c, t) for c, t, _ in probs]}
+    if "variants" in case:
+        r = work_padding([case])
+        return {"violations": [(v[0], v[1]) for v in r["violations"]]}
     res = common.Result()
     info = run_sweep(case, res)
     return {"info": info, "violations": [(v[0], v[1]) for v in res["violations"]]}
@@ -224,6 +245,7 @@ def run(tier):
     rec.assume(
         "request-id and msgID are pinned to 4-octet values through the RNG seam during the sweep (their random width would otherwise move the threshold by up to 6 octets; "
         "without the seam an 8-octet tolerance is applied)",
+        "a DES reply whose ciphertext is not a whole number of blocks must not be delivered (the tail was never written into the private buffer)",
         "padding inside the ciphertext may have any value the library writes for the request at hand, but must be the same whatever the session sent or decrypted before",
         "request size grows monotonically with the swept parameter; privacy adds a second (private) buffer, so for privacy configurations only monotonicity, clean refusal and intact "
         "follow-up requests are required, not one common threshold",
@@ -271,6 +293,15 @@ def run(tier):
         for n in range(2, 20):
             pcases.append({"cfg": cfg.describe(), "n": n, "variants": variants})
     for _, res in pool.run(work_padding, [pcases[i : i + 6] for i in range(0, len(pcases), 6)], timeout=600, case_timeout=300, log_path=lp, on_failure=on_failure):
+        rec.merge(res)
+    # DES: ciphertext of 8m+k octets after a valid reply has left plaintext in the private buffer
+    part = []
+    for auth in (1, 2):
+        cfg = Cfg("v3", auth=auth, priv=1)
+        for k in range(1, 8):
+            h = [["get", 0, "sys"], ["reply", 0, "octets", 61], ["get", 0, "sys"], ["reply", 0, "partial", k], ["reply", 0, "octets", 20 + k]]
+            part.append({"cfgs": [cfg.describe()], "history": h})
+    for _, res in pool.run(work_partial, [part[i : i + 4] for i in range(0, len(part), 4)], timeout=600, case_timeout=300, log_path=lp, on_failure=on_failure):
         rec.merge(res)
     # one common threshold per non-privacy configuration across octet-granular dimensions
     by = {}
